@@ -57,12 +57,13 @@ def check(ctx):
             ok = False
             for a_ in gsa.atoms(e.cond):
                 mm = re.match(r'^strcmp\((.*)\)$', a_)
-                if not mm:
+                eq0 = re.match(r'^strcmp\((.*)\)\s*==\s*0$', a_)       # truth of a helper that returns `strcmp (...) == 0`
+                if not mm and not eq0:
                     continue
-                inside = mm.group(1)
+                inside = (mm or eq0).group(1)
                 uses_key = re.search(r'(^|\W)%s(\W|$)' % re.escape(keyparam), inside) is not None
                 uses_entry = e.value in inside
-                if uses_key and uses_entry and not gsa.can_hold(e.cond, {a_: True}):
+                if uses_key and uses_entry and not gsa.can_hold(e.cond, {a_: True if mm else False}):
                     ok = True
             r1.check(ok, '%s: return %s' % (fname, e.value[:50]), TL, e.line,
                      '%s can return an entry without comparing the requested key with that entry\'s own string: a perfect-hash '
@@ -330,6 +331,9 @@ def check(ctx):
     for e in gsa.find(FG, 'call', r'^%s$' % re.escape(helpers[0])):
         if e.args and len(e.args) > flag_i[0]:
             searched.setdefault(e.args[0], set()).add(e.args[flag_i[0]])
+    if any(f_ not in ('0', '1') for fl_ in searched.values() for f_ in fl_):
+        raise AnalysisError('g_irepository_find_by_gtype: the prefix-check flag of the per-table search is not a literal (%s): the pass structure is not recognised'
+                            % sorted(set(f_ for fl_ in searched.values() for f_ in fl_)))
     for tbl_, flags_ in sorted(searched.items()):
         full = [a_ for a_ in FG.atoms() if a_.startswith('%s(%s,' % (helpers[0], tbl_)) and a_.endswith(',0)')]
         okf = bool(full) and all(not gsa.can_hold(e.cond, {full[0]: True}) for e in neg_cache) and '0' in flags_
